@@ -358,9 +358,9 @@ def r3(ctx, chk):
     chk.ob(rule, "_no_spaces_parser derives the missing parts with _get_missing_parts(fmt)",
            any(isinstance(n, ast.Call) and ast.unparse(n.func) == "_get_missing_parts" for n in iter_own_nodes(ns.node)), "", key={"table": "format parts", "directive": "*", "part": "nsp"},
            file=ns.file, function=ns.qual, line=ns.node.lineno)
-    # period of the custom-format result: year if month missing, month if only day missing, else day
+    # period of the custom-format result: year if the month is missing, month if only the day is missing, else the initial 'day' -
+    # decided by running the statements of the format loop for the four combinations of (month missing, day missing)
     pf = ctx.ix.func("dateparser.date:parse_with_formats")
-    per = {}
     flags = missing_flags(pf)
     pname = None
     for n in iter_own_nodes(pf.node):
@@ -368,17 +368,68 @@ def r3(ctx, chk):
             for k in n.keywords:
                 if k.arg == "period" and isinstance(k.value, ast.Name):
                     pname = k.value.id
-    for s in iter_own_stmts(pf.node.body):
-        if isinstance(s, ast.If):
-            t = ast.unparse(s.test)
-            for nm, part in flags.items():
-                import re as _re
-                t = _re.sub(r"\b%s\b" % nm, "missing_" + part, t)
-            for b in s.body:
-                if isinstance(b, ast.Assign) and ast.unparse(b.targets[0]) == pname and isinstance(b.value, ast.Constant):
-                    per[t] = b.value.value
-    want = {"missing_month and missing_day": "year", "missing_month": "year", "missing_day": "month"}
-    chk.ob(rule, "custom formats: period year/year/month for (month+day | month | day) missing", per == want, "got %s" % per,
+    loops = [n for n in iter_own_nodes(pf.node) if isinstance(n, ast.For)]
+    if pname is None or not loops:
+        chk.error(rule, "parse_with_formats: the period local / the format loop was not found")
+        return
+
+    class _Unknown(Exception):
+        pass
+
+    def atom(e):
+        if isinstance(e, ast.Name) and e.id in flags:
+            return flags[e.id]
+        if isinstance(e, ast.Compare) and len(e.ops) == 1 and isinstance(e.ops[0], (ast.In, ast.NotIn)) and isinstance(e.left, ast.Constant) \
+                and e.left.value in ("month", "day", "year"):
+            return e.left.value if isinstance(e.ops[0], ast.In) else ("not", e.left.value)
+        return None
+
+    def ev(e, env):
+        if isinstance(e, ast.BoolOp):
+            vals = [ev(v, env) for v in e.values]
+            return all(vals) if isinstance(e.op, ast.And) else any(vals)
+        if isinstance(e, ast.UnaryOp) and isinstance(e.op, ast.Not):
+            return not ev(e.operand, env)
+        a = atom(e)
+        if a is None:
+            raise _Unknown(ast.unparse(e)[:40])
+        if isinstance(a, tuple):
+            return not env.get(a[1], False)
+        return env.get(a, False)
+
+    def run(stmts, env, period):
+        for st in stmts:
+            if isinstance(st, ast.If):
+                try:
+                    c = ev(st.test, env)
+                except _Unknown:
+                    # a test about something else (e.g. the year): the period must not be assigned under it
+                    if any(isinstance(x, ast.Assign) and ast.unparse(x.targets[0]) == pname for x in ast.walk(st)):
+                        raise
+                    continue
+                period = run(st.body if c else st.orelse, env, period)
+            elif isinstance(st, ast.Assign) and ast.unparse(st.targets[0]) == pname:
+                if not isinstance(st.value, ast.Constant):
+                    raise _Unknown(ast.unparse(st)[:40])
+                period = st.value.value
+            elif isinstance(st, ast.Try):
+                period = run(st.body, env, period)
+                period = run(st.orelse, env, period)          # the no-exception continuation
+                period = run(st.finalbody, env, period)
+            elif isinstance(st, ast.With):
+                period = run(st.body, env, period)
+        return period
+    want = {(True, True): "year", (True, False): "year", (False, True): "month", (False, False): "<initial>"}
+    got = {}
+    try:
+        for mm in (True, False):
+            for md in (True, False):
+                got[(mm, md)] = run(loops[0].body, {"month": mm, "day": md, "year": False}, "<initial>")
+    except _Unknown as e_:
+        chk.error(rule, "parse_with_formats: the period is decided by something this rule cannot evaluate (%s)" % e_)
+        return
+    chk.ob(rule, "custom formats: period year/year/month for (month+day | month | day) missing", got == want,
+           "(month missing, day missing) -> period: %s" % {k: v for k, v in got.items() if want[k] != v},
            key={"table": "format period", "directive": "*", "part": "*"}, file=pf.file, function=pf.qual, line=pf.node.lineno)
 
 
@@ -398,6 +449,10 @@ def r4(ctx, chk):
             val = "<loop variable>"
         seq.append((names, val))
     want = [(["time", "day"], "'day'"), (["month", "year"], "<loop variable>")]
+    if not seq:
+        # the decision is not written as loops over literal name lists any more: nothing here to compare with the modelled order
+        chk.error(rule, "_parser._get_period: the period decision is not in the modelled form (loops over literal lists of part names)")
+        return
     chk.ob(rule, "_get_period: day if a time or day is present, else month, else year", seq == want, "got %s" % seq,
            key={"function": f.key, "construct": "period order"}, file=f.file, function=f.qual, line=f.node.lineno)
     stmts = [s_ for s_ in f.node.body if not (isinstance(s_, ast.Expr) and isinstance(s_.value, ast.Constant))]
@@ -546,8 +601,14 @@ def nospace_period_rule(ctx, chk, rule):
     hit = [n for n in ast.walk(body) if isinstance(n, ast.Return)]
     tests = [n for n in ast.walk(body) if isinstance(n, ast.If)]
     tgt = outer.target.elts[0].id if isinstance(outer.target, ast.Tuple) and isinstance(outer.target.elts[0], ast.Name) else None
-    ok = len(hit) == 1 and len(tests) == 1 and isinstance(hit[0].value, ast.Name) and hit[0].value.id == tgt \
-        and isinstance(tests[0].test, ast.Compare) and isinstance(tests[0].test.ops[0], ast.In) and ast.unparse(tests[0].test.comparators[0]) == fmtp
+    def _membership(t):
+        # `drv in format_string`, directly or as the element of any(... for drv in pdrv)
+        if isinstance(t, ast.Compare):
+            return isinstance(t.ops[0], ast.In) and ast.unparse(t.comparators[0]) == fmtp
+        if isinstance(t, ast.Call) and ast.unparse(t.func) == "any" and len(t.args) == 1 and isinstance(t.args[0], (ast.GeneratorExp, ast.ListComp)):
+            return _membership(t.args[0].elt)
+        return False
+    ok = len(hit) == 1 and len(tests) == 1 and isinstance(hit[0].value, ast.Name) and hit[0].value.id == tgt and _membership(tests[0].test)
     chk.ob(rule, "a directive found in the format returns the name of its table row", ok, "", key={"function": f.key, "construct": "hit returns row"},
            file=f.file, function=f.qual, line=outer.lineno)
     rest = [n for n in iter_own_nodes(f.node) if isinstance(n, ast.Return) and n not in hit]
